@@ -15,7 +15,7 @@ func TestMain(m *testing.M) { vk.Main(m) }
 // called with every argument in Args (several calls catch state kept between calls).
 type Scenario struct {
 	N      int     `json:"n"`
-	Family string  `json:"family"` // "trace" | "affine" | "table" | "anynil" | "reentrant"
+	Family string  `json:"family"` // "trace" | "affine" | "table" | "anynil" | "reentrant" | "panics"
 	A      []int   `json:"a"`      // affine: x -> (A*x+B) mod P ; trace: tag index
 	B      []int   `json:"b"`
 	Table  [][]int `json:"table,omitempty"` // table family: f_i(x) = Table[i][x mod M]
@@ -27,14 +27,14 @@ const tableM = 7
 
 func gen(t *rapid.T) Scenario {
 	sc := Scenario{N: rapid.IntRange(2, 20).Draw(t, "n")}
-	sc.Family = rapid.SampledFrom([]string{"trace", "affine", "table", "anynil", "reentrant"}).Draw(t, "family")
+	sc.Family = rapid.SampledFrom([]string{"trace", "affine", "table", "anynil", "reentrant", "panics"}).Draw(t, "family")
 	sc.Args = rapid.SliceOfN(rapid.IntRange(0, prime-1), 1, 3).Draw(t, "args")
 	if rapid.IntRange(0, 2).Draw(t, "repeatArg") == 0 {
 		sc.Args = append(sc.Args, sc.Args[len(sc.Args)-1]) // the same argument twice in a row
 	}
 	for i := 0; i < sc.N; i++ {
 		switch sc.Family {
-		case "trace", "anynil", "reentrant":
+		case "trace", "anynil", "reentrant", "panics":
 			sc.A = append(sc.A, rapid.IntRange(0, 25).Draw(t, "tag"))
 		case "affine":
 			sc.A = append(sc.A, rapid.IntRange(2, prime-1).Draw(t, "a"))
@@ -116,6 +116,51 @@ func Run(sc Scenario) string {
 			for i, c := range calls {
 				if c != 2*(k+1) {
 					return fmt.Sprintf("call %d: f_%d was applied %d times in total, want %d (outer and re-entrant inner call)", k, i+1, c, 2*(k+1))
+				}
+			}
+		}
+	case "panics":
+		// one stage (position A[0] mod N) panics: f_N(...f_k(...)...) then panics with that very value, the stages before it
+		// have been applied once, the stages after it not at all - exactly what the nested application does
+		at := sc.A[0] % sc.N
+		type abort struct{ code int }
+		sentinel := &abort{7}
+		values := []any{fmt.Errorf("stage failed"), "stage failed", 42, abort{9}, sentinel}
+		pv := values[sc.A[1%len(sc.A)]%len(values)]
+		fs := make([]func(string) string, sc.N)
+		for i := range fs {
+			tag := "<" + strconv.Itoa(i) + string(rune('a'+sc.A[i])) + ">"
+			fs[i] = func(s string) string {
+				calls[i]++
+				if i == at {
+					panic(pv)
+				}
+				return s + tag
+			}
+		}
+		h := compose(fs)
+		for k, a := range sc.Args {
+			var got string
+			var rec any
+			returned := false
+			func() {
+				defer func() { rec = recover() }()
+				got = h(strconv.Itoa(a))
+				returned = true
+			}()
+			if returned {
+				return fmt.Sprintf("call %d: Pipe%d with stage %d panicking (value of type %T) returned %q normally; the nested application f_N(...f_1(a)) panics", k, sc.N, at+1, pv, got)
+			}
+			if rec != pv {
+				return fmt.Sprintf("call %d: Pipe%d with stage %d panicking with %#v: the composition panicked with %#v", k, sc.N, at+1, pv, rec)
+			}
+			for i, c := range calls {
+				want := k + 1
+				if i > at {
+					want = 0
+				}
+				if c != want {
+					return fmt.Sprintf("call %d: stage %d panics: f_%d was applied %d times in total, want %d", k, at+1, i+1, c, want)
 				}
 			}
 		}
@@ -204,7 +249,7 @@ func nontrivial(sc Scenario) bool {
 	for i := 0; i < sc.N; i++ {
 		var k string
 		switch sc.Family {
-		case "trace", "anynil", "reentrant":
+		case "trace", "anynil", "reentrant", "panics":
 			k = "t" // trace tags carry the position, always distinct
 			k += strconv.Itoa(i)
 		case "affine":
@@ -279,7 +324,7 @@ func FuzzC20(f *testing.F) {
 // TestC20Each covers every N with every family deterministically (no N can be missed by chance).
 func TestC20Each(t *testing.T) {
 	for n := 2; n <= 20; n++ {
-		for _, fam := range []string{"trace", "affine", "table", "anynil", "reentrant"} {
+		for _, fam := range []string{"trace", "affine", "table", "anynil", "reentrant", "panics"} {
 			sc := Scenario{N: n, Family: fam, Args: []int{3, 999983, 4, 4}}
 			for i := 0; i < n; i++ {
 				sc.A = append(sc.A, 2+i)
